@@ -71,7 +71,8 @@ Section Client.
   Definition field (k : string) (j : json) : string :=
     match j with JObj ms => last_str k ms EmptyString | _ => EmptyString end.
 
-  Inductive cres := CRetOk | CRetErr | CPanic.
+  Inductive cres := CRetOk | CRetErr | CPanic
+  | CHang.   (* did not return: blocked past its context / a watchdog, or blocks the next call on the same instance *)
 
   (* [expect]: the issuer (Discover) / subject (Userinfo) the caller compares with *)
   Definition call (guard : bool) (h : helper) (a : answer) (expect : string) : cres :=
